@@ -85,7 +85,7 @@ def _calls_outside_language(expr):
     return bad
 
 
-def c09_hostile(expr, genvar=None, frame=False):
+def c09_hostile(expr, genvar=None, frame=False, typeattr=False, refuse=False):
     """Violation: the record is modified, or an expression holding a call outside the allowed language evaluates to a value.
     With a generator variable name, the call is also tried inside generator expressions that bind that name to a mutating bound method."""
     candidates = [expr]
@@ -101,6 +101,10 @@ def c09_hostile(expr, genvar=None, frame=False):
         bad_calls = _calls_outside_language(e)
         # a generator variable that shadows an allowed name is still "outside the language" when it is the thing that gets called: detected by the mutation
         v = changed or (not frame and out[0] == "val" and bool(bad_calls))
+        if typeattr:  # `Type.<type>.<method> == value`: true only if the method named by the chain was invoked
+            v = changed or (out[0] == "val" and bool(out[1]) is True)
+        if refuse:  # an expression node class outside the documented language must be refused
+            v = changed or out[0] == "val"
         res["tried"].append({"expression": e, "outcome": out, "record_modified": changed, "calls_outside_language": bad_calls})
         if v:
             res["violates"] = True
